@@ -274,6 +274,14 @@ fn judge_inner(base: &Base, m: &Mutation, path: &std::path::Path, extra_commit: 
 pub fn run(ctx: &Ctx) -> Shard {
     let mut shard = Shard::new("C12");
     let scratch = Scratch::new("C12");
+    // A header whose damaged page count is trusted can make a commit extend the file by gigabytes;
+    // scratch files live in memory (tmpfs), so cap what this process may write (the failed extension
+    // is then reported like any other failure after the fallback).
+    unsafe {
+        libc::signal(libc::SIGXFSZ, libc::SIG_IGN);
+        let lim = libc::rlimit { rlim_cur: 256 << 20, rlim_max: 256 << 20 };
+        libc::setrlimit(libc::RLIMIT_FSIZE, &lim);
+    }
     let sizes: Vec<u64> = if ctx.thorough() { vec![1024, 4096] } else { vec![1024] };
     let max_commits = 6usize;
     let cur = std::env::var("VH_CURRENT").ok();
